@@ -543,11 +543,24 @@ def canary(reals) -> None:
         expect.append("ok")
         bad = json.loads(json.dumps(per))
         o = bad[si - 1][ei - 1]
+        accepted = o[0] == "ok"
+        if accepted != (isinstance(what, int) or what in ("reject", "digest")) or (
+            isinstance(what, int) and len(o) != 15
+        ):
+            # the real code already deviates on the base specifier (a mutation under
+            # test): nothing to corrupt here, the main check reports the deviation
+            traces.append(base)
+            expect.append("ok")
+            continue
         if isinstance(what, int):
             o[what] = o[what] + "9" if o[what] not in ("none", "", "default") else "x"
         elif what == "reject":
             bad[si - 1][ei - 1] = ["ValueError", True]
         elif what == "digest":
+            if o[3] != "out":
+                traces.append(base)
+                expect.append("ok")
+                continue
             o[2] = "0" * 16
         elif what == "accept":
             bad[si - 1][ei - 1] = ["ok", True, "none", "80", "57", "none", "28", "17", "default", "",
@@ -564,7 +577,7 @@ def canary(reals) -> None:
         expect.append(verdict)
     verdicts, _, _ = validate(traces, len(traces), 1)
     for i in range(0, len(traces), 2):
-        if verdicts[i]["verdict"] != "ok":
+        if verdicts[i]["verdict"] != "ok" or expect[i + 1] == "ok":
             continue  # the real code already deviates here: the main check reports it
         got = verdicts[i + 1]["verdict"]
         if got != expect[i + 1]:
